@@ -245,9 +245,21 @@ def scale_case(rng, kind, algo=None):
                   "multi_operator_containers": True}
         return {"kind": "sim", "algo": "priority", "params": params, "workload": {"type": "script", "arrivals": arrivals},
                 "_scale": kind}
-    if kind == "many-small":
+    if kind == "fail-crowd":
+        # a backlog of pipelines most of which fail at once (they need more memory than the pool has)
+        algo = algo or "naive"
+        n = rng.randint(500, 700)
+        arrivals = {}
+        for i in range(n):
+            big = rng.random() < 0.85
+            arrivals.setdefault(str(rng.randint(0, 3)), []).append(
+                {"pid": f"fc{i}", "prio": rng.choice(PRIOS_L), "ops": [_tiny_op(tps, rng.choice([1, 2]), mem=(10.0 if big else 0.5))]})
+        params = {"duration": (n * 3 + 200) / tps, "ticks_per_second": tps, "num_pools": rng.choice([1, 2]), "cpus_per_pool": 4,
+                  "ram_gb_per_pool": 4, "multi_operator_containers": rng.random() < 0.5, "allow_memory_overcommit": False}
+        return {"kind": "sim", "algo": algo, "params": params, "workload": {"type": "script", "arrivals": arrivals}, "_scale": kind}
+    if kind in ("many-small", "many-small-x2"):
         algo = algo or rng.choice(["naive", "priority", "priority-pool", "overbook", "vrandom"])
-        n = rng.randint(4600, 5200)
+        n = rng.randint(4600, 5200) if kind == "many-small" else rng.randint(9300, 9900)
         prio_main = rng.choice(PRIOS_L)
         arrivals = {}
         t = 0
